@@ -81,6 +81,13 @@ pub fn main() -> i32 {
         "C11" => refsearch::run(&args),
         "C12" => mates::run(&args),
         "C16" => determ::run(&args),
+        "gen-mates" => {
+            let n: usize = args.rest.first().and_then(|x| x.parse().ok()).unwrap_or(100);
+            for (fen, label) in mates::generate(n, 0x5EED_C12) {
+                println!("{label}\t{fen}");
+            }
+            0
+        }
         "sched-debug" => {
             let idx: usize = args.rest.first().and_then(|x| x.parse().ok()).unwrap_or(0);
             let choices: Vec<usize> = args.rest.iter().skip(1).filter_map(|x| x.parse().ok()).collect();
